@@ -701,7 +701,8 @@ func c13Sequences(w *bufio.Writer, r *hx.Rng, c c13Cfg, chunk int, full bool) {
 	}
 	for _, v := range vals {
 		evs = append(evs, c13TreeEv(c13EventFor(r, c, v, pool)))
-		if c13Busyable[c.plugin] && r.Chance(1, 4) {
+		// a time-out event after any event: exec delivers it only when the plugin is busy there
+		if (c13Busyable[c.plugin] && r.Chance(1, 3)) || r.Chance(1, 10) {
 			evs = append(evs, "T")
 		}
 		if len(evs) >= chunk {
@@ -723,7 +724,7 @@ func c13RandomSeq(r *hx.Rng, c c13Cfg) []c13EvTok {
 	var evs []c13EvTok
 	for i := 0; i < n; i++ {
 		switch {
-		case c13Busyable[c.plugin] && r.Chance(1, 5):
+		case (c13Busyable[c.plugin] && r.Chance(1, 4)) || r.Chance(1, 12):
 			evs = append(evs, "T")
 		case r.Chance(1, 12):
 			evs = append(evs, c13RawEv(c13RootShapes[r.Intn(len(c13RootShapes))]))
@@ -748,6 +749,104 @@ func c13RandomSeq(r *hx.Rng, c c13Cfg) []c13EvTok {
 			}
 			evs = append(evs, c13TreeEv(ev))
 		}
+	}
+	return evs
+}
+
+// c13TimeoutVariants: the sequence with a time-out event injected at every point (one variant per
+// position; the rest of the sequence follows the time-out).
+func c13TimeoutVariants(w *bufio.Writer, c c13Cfg, evs []c13EvTok) {
+	var plain []c13EvTok
+	for _, e := range evs {
+		if e != "T" {
+			plain = append(plain, e)
+		}
+	}
+	for k := 1; k <= len(plain); k++ {
+		v := make([]c13EvTok, 0, len(plain)+1)
+		v = append(v, plain[:k]...)
+		v = append(v, "T")
+		v = append(v, plain[k:]...)
+		c13Line(w, c, v)
+	}
+}
+
+// c13StatefulTimeouts: for the plugins that wait for a next line, every short run of every kind of
+// line with a time-out after every prefix.
+func c13StatefulTimeouts(w *bufio.Writer, r *hx.Rng, c c13Cfg, full bool) {
+	var lines []string
+	maxLen := 3
+	switch c.plugin {
+	case "parse_es":
+		// action lines of the bulk API (index / create wait for a source line, update for a line to
+		// drop, delete for nothing), a source line, something else
+		lines = []string{`{"index":{}}`, `{"create":{"_index":"x"}}`, `{"update":{"_id":"1"}}`, `{"delete":{"_id":"1"}}`, `{"doc":1}`, `[]`}
+	case "join":
+		// starts / continuations for the systematic start/continue patterns of the grammar
+		lines = []string{`{"log":"panic: x"}`, `{"log":"  at foo"}`, `{"log":"start"}`, `{"log":" cont"}`, `{"log":"other"}`, `{"x":1}`, `{"log":12}`}
+		if !full {
+			maxLen = 2
+		}
+	case "join_template":
+		lines = []string{`{"log":"panic: runtime error: x"}`, `{"log":"goroutine 1 [running]:"}`, `{"log":"main.main()"}`, `{"log":"\t/path/file.go:12 +0x1d"}`, `{"log":"Unhandled exception. System.Exception: x"}`, `{"log":"   at Program.Main()"}`, `{"log":"WARNING: DATA RACE"}`, `{"log":"plain"}`, `{"x":1}`}
+		maxLen = 2
+	case "k8s-multiline":
+		lines = []string{`{"log":"part"}`, `{"log":"line\n"}`, `{"log":"` + c13LongStr(30, "x") + `"}`, `{"log":""}`, `{"log":12}`, `{"x":1}`}
+		if !full {
+			maxLen = 2
+		}
+	default:
+		return
+	}
+	tail := []c13EvTok{c13RawEv(lines[0]), c13RawEv(lines[len(lines)-2]), c13RawEv(lines[1])}
+	var rec func(cur []c13EvTok, n int)
+	rec = func(cur []c13EvTok, n int) {
+		if len(cur) > 0 {
+			// time-out right after this run, then traffic goes on
+			v := append(append(append([]c13EvTok(nil), cur...), "T"), tail...)
+			c13Line(w, c, v)
+			// and a second time-out in a row
+			c13Line(w, c, append(append(append([]c13EvTok(nil), cur...), "T", "T"), tail[0]))
+		}
+		if n == 0 {
+			return
+		}
+		for _, l := range lines {
+			rec(append(append([]c13EvTok(nil), cur...), c13RawEv(l)), n-1)
+		}
+	}
+	rec(nil, maxLen)
+	_ = r
+}
+
+// c13WaitingStream: lines that leave the plugin waiting for the next line of the stream, then
+// silence (time-out), then more lines (they must still come out).
+func c13WaitingStream(r *hx.Rng, plugin string) []c13EvTok {
+	var waiting, after [][]string
+	switch plugin {
+	case "parse_es":
+		waiting = [][]string{{`{"index":{}}`}, {`{"create":{"_index":"x"}}`}, {`{"update":{"_id":"1"}}`}, {`{"delete":{"_id":"1"}}`}, {`{"index":{}}`, `{"doc":1}`, `{"update":{}}`}, {`{"index":{}}`, `{"doc":1}`, `{"create":{}}`}}
+		after = [][]string{{`{"index":{}}`, `{"doc":2}`}, {`{"doc":3}`, `{"index":{}}`, `{"doc":4}`}, {`{"delete":{}}`, `{"create":{}}`, `{"doc":5}`}}
+	case "join", "join_template":
+		waiting = [][]string{{`{"log":"panic: x"}`}, {`{"log":"panic: x"}`, `{"log":"  at foo"}`}, {`{"log":"start"}`, `{"log":" cont"}`}, {`{"log":"panic: runtime error: x"}`, `{"log":"goroutine 1 [running]:"}`}, {`{"log":"WARNING: DATA RACE"}`}}
+		after = [][]string{{`{"log":"other"}`}, {`{"log":"panic: y"}`, `{"log":"plain"}`}, {`{"x":1}`}}
+	default: // k8s-multiline
+		waiting = [][]string{{`{"log":"part"}`}, {`{"log":"part"}`, `{"log":"more"}`}, {`{"log":"` + c13LongStr(40, "x") + `"}`}}
+		after = [][]string{{`{"log":"line\n"}`}, {`{"log":"p2"}`, `{"log":"end\n"}`}}
+	}
+	var evs []c13EvTok
+	for _, l := range waiting[r.Intn(len(waiting))] {
+		evs = append(evs, c13RawEv(l))
+	}
+	evs = append(evs, "T")
+	for _, l := range after[r.Intn(len(after))] {
+		evs = append(evs, c13RawEv(l))
+	}
+	if r.Chance(1, 3) {
+		for _, l := range waiting[r.Intn(len(waiting))] {
+			evs = append(evs, c13RawEv(l))
+		}
+		evs = append(evs, "T")
 	}
 	return evs
 }
@@ -793,7 +892,12 @@ func genC13(w *bufio.Writer, rng *hx.Rng, tier string) {
 				continue
 			}
 			c13Sequences(w, rng, c, chunk, full)
-			c13Line(w, c, c13RandomSeq(rng, c))
+			rs := c13RandomSeq(rng, c)
+			c13Line(w, c, rs)
+			if c13Busyable[p] {
+				c13TimeoutVariants(w, c, rs)
+				c13StatefulTimeouts(w, rng, c, full)
+			}
 		}
 		for i := 0; i < nRandCfg; i++ {
 			c := c13RandomCfg(p, rng)
@@ -801,7 +905,13 @@ func genC13(w *bufio.Writer, rng *hx.Rng, tier string) {
 				continue
 			}
 			for j := 0; j < nSeqPerCfg; j++ {
-				c13Line(w, c, c13RandomSeq(rng, c))
+				rs := c13RandomSeq(rng, c)
+				c13Line(w, c, rs)
+				// a time-out at every point of the sequence (all of them for the plugins known to
+				// hold events, a sample for the others: exec delivers it wherever the plugin is busy)
+				if (c13Busyable[p] && (full || j < 2)) || (j == 0 && rng.Chance(1, 8)) {
+					c13TimeoutVariants(w, c, rs)
+				}
 			}
 		}
 	}
@@ -832,10 +942,19 @@ func genC13(w *bufio.Writer, rng *hx.Rng, tier string) {
 				labels = append(labels, names[(first+k)%len(names)])
 			}
 			var evs []c13EvTok
+			nT := 0
 			for _, e := range c13RandomSeq(rng, c) {
+				// T = silence longer than heartbeat + event time-out (260 ms each: used sparingly)
 				if e != "T" {
 					evs = append(evs, e)
+				} else if c13Busyable[p] && nT < 1 && i%4 == 1 {
+					evs = append(evs, e)
+					nT++
 				}
+			}
+			if c13Busyable[p] && i%2 == 0 {
+				// a stream that stops in a "waiting for the next line" state, silence, then traffic again
+				evs = c13WaitingStream(rng, p)
 			}
 			cmd := "c13.pipe"
 			if i%4 == 3 {
